@@ -260,14 +260,21 @@ pub(crate) fn read<V: MultiClassVisitor>(reader: &mut impl ClassRead, visitor: V
 			reader.with_pos(fields_start, |reader| {
 				let fields_count = reader.read_u16()?;
 				for _ in 0..fields_count {
-					class_visitor = read_field(reader, class_visitor, pool)
-						.with_context(|| anyhow!("failed to read field of class {this_class:?}"))?;
+					if interests.fields {
+						class_visitor = read_field(reader, class_visitor, pool)
+							.with_context(|| anyhow!("failed to read field of class {this_class:?}"))?;
+					} else {
+						reader.skip(2 + 2 + 2)?;
+						skip_attributes(reader)?;
+					}
 				}
 
-				let methods_count = reader.read_u16()?;
-				for _ in 0..methods_count {
-					class_visitor = read_method(reader, class_visitor, pool, &bootstrap_methods)
-						.with_context(|| anyhow!("failed to read method of class {this_class:?}"))?;
+				if interests.methods {
+					let methods_count = reader.read_u16()?;
+					for _ in 0..methods_count {
+						class_visitor = read_method(reader, class_visitor, pool, &bootstrap_methods)
+							.with_context(|| anyhow!("failed to read method of class {this_class:?}"))?;
+					}
 				}
 
 				MultiClassVisitor::finish_class(visitor, class_visitor)
